@@ -233,6 +233,19 @@ pub fn realise(c: &Case, table: &[(u8, u8)], canonical: bool) -> ModelSpec {
         // every seventh model read (never one the writer has to reproduce) carries terrain shadow tables
         ts_meshes: if !canonical && c.seed % 7 == 0 { 1 + ((c.seed >> 8) % 3) as u8 } else { 0 },
         ts_submeshes: if !canonical && c.seed % 7 == 0 { ((c.seed >> 12) % 4) as u16 } else { 0 },
+        // every fifth model stores its vertex and index sections in a shuffled physical order
+        section_order: if c.seed % 5 == 0 {
+            let n = 2 * c.lods.len();
+            let mut o: Vec<usize> = (0..n).collect();
+            let mut x = c.seed ^ 0x5EC7;
+            for i in (1..n).rev() {
+                x = crate::engine::util::splitmix64(x);
+                o.swap(i, (x % (i as u64 + 1)) as usize);
+            }
+            o
+        } else {
+            vec![]
+        },
     }
 }
 
@@ -409,6 +422,9 @@ fn prop(c: &Case, ctx: &Ctx) -> PResult {
     if c.seed % 7 == 0 {
         ctx.class("terrain-shadow-tables");
     }
+    if c.seed % 5 == 0 {
+        ctx.class("sections-in-shuffled-physical-order");
+    }
     ctx.classf(format!("lods:{}", c.lods.len()));
     let nontrivial = spec.lods.iter().flatten().any(|m| (m.stream_count >= 2 || m.elements.len() >= 4) && m.vertex_count >= 1);
     if nontrivial {
@@ -534,6 +550,7 @@ pub fn sweep_spec(variant: u8, v6: bool, canonical: bool) -> ModelSpec {
         skew_unused_copies: 0,
         ts_meshes: 0,
         ts_submeshes: 0,
+        section_order: vec![],
     }
 }
 
